@@ -27,6 +27,9 @@ namespace {
     z3::context ctx;
     std::unique_ptr<z3::solver> slv;
     std::unique_ptr<z3::solver> aux;
+    std::vector<z3::expr> pc;      // the path condition as a list (for from-scratch queries)
+    bool pc_hard = false;          // PC contains non-linear / uninterpreted-function constraints
+    std::unordered_map<unsigned, bool> hard_cache;
     std::vector<z3::expr> terms; // id-1
     std::vector<z3::expr> bools; // id-1
     uint32_t epoch = 0;
@@ -183,6 +186,10 @@ namespace {
     Eng & e = eng();
     auto t0 = clk::now();
     z3::check_result r;
+    if (getenv("SX_DUMP")) {
+      FILE * f = fopen(getenv("SX_DUMP"), "w");
+      if (f) { fputs(e.slv->to_smt2().c_str(), f); fclose(f); }
+    }
     try {
       r = e.slv->check();
     } catch (z3::exception & ex) {
@@ -192,10 +199,30 @@ namespace {
     return r;
   }
 
+  bool is_hard(const z3::expr & t);
+
   // sat check of PC /\ c ; on sat stores the model
   z3::check_result check_with(const z3::expr & c, unsigned timeout, bool keep_model)
   {
     Eng & e = eng();
+    if (e.pc_hard || is_hard(c)) {
+      // z3's incremental core can get stuck (uninterruptibly) on non-linear arithmetic accumulated
+      // over push/pop; such queries go to a fresh solver instance
+      z3::solver s(e.ctx);
+      z3::params p(e.ctx);
+      p.set("timeout", timeout);
+      s.set(p);
+      for (const z3::expr & a : e.pc) s.add(a);
+      s.add(c);
+      auto t0 = clk::now();
+      z3::check_result r;
+      try { r = s.check(); } catch (z3::exception &) { r = z3::unknown; }
+      e.st.solver_seconds += std::chrono::duration<double>(clk::now() - t0).count();
+      if (r == z3::sat && keep_model) {
+        try { e.model.reset(new z3::model(s.get_model())); } catch (z3::exception &) { e.model.reset(); }
+      }
+      return r;
+    }
     set_timeout(timeout);
     e.slv->push();
     e.slv->add(c);
@@ -211,7 +238,33 @@ namespace {
     return r;
   }
 
-  void add_pc(const z3::expr & c) { eng().slv->add(c); }
+  bool is_hard(const z3::expr & t)
+  {
+    Eng & e = eng();
+    if (!t.is_app()) return false;
+    auto it = e.hard_cache.find(t.id());
+    if (it != e.hard_cache.end()) return it->second;
+    bool h = false;
+    Z3_decl_kind k = t.decl().decl_kind();
+    unsigned n = t.num_args();
+    if (k == Z3_OP_UNINTERPRETED && n > 0) h = true;
+    else if (k == Z3_OP_MUL) {
+      unsigned nonnum = 0;
+      for (unsigned i = 0; i < n; i++) if (!t.arg(i).is_numeral()) nonnum++;
+      if (nonnum >= 2) h = true;
+    } else if ((k == Z3_OP_DIV || k == Z3_OP_POWER) && n == 2 && !t.arg(1).is_numeral()) h = true;
+    for (unsigned i = 0; i < n && !h; i++) h = is_hard(t.arg(i));
+    e.hard_cache[t.id()] = h;
+    return h;
+  }
+
+  void add_pc(const z3::expr & c)
+  {
+    Eng & e = eng();
+    e.slv->add(c);
+    e.pc.push_back(c);
+    if (!e.pc_hard && is_hard(c)) e.pc_hard = true;
+  }
 
   void axioms_for(sx::fun1 f, const z3::expr & arg, const z3::expr & app)
   {
@@ -242,7 +295,13 @@ namespace {
     case sx::F_EXP:
       if (e.opt.ax_log) add_pc(app > zero);
       break;
-    case sx::F_ACOS:
+    case sx::F_ACOS: {
+      // always: range and the two end points (linear facts; they make the measure-zero
+      // "angle is exactly 0 / pi" paths of randomize_particle infeasible for deviates in (0,1))
+      z3::expr pi0 = e.ctx.real_val("3141592653589793/1000000000000000");
+      add_pc(z3::implies(arg > -one && arg < one, app > zero && app < pi0));
+      add_pc(z3::implies(arg >= -one && arg <= one, app >= zero && app <= pi0));
+      }
       if (e.opt.ax_trig) {
         z3::expr c = e.f1[sx::F_COS](app), s = e.f1[sx::F_SIN](app);
         z3::expr pi = e.ctx.real_val("3141592653589793/1000000000000000");
@@ -442,6 +501,9 @@ namespace {
     e.model_valid = false;
     e.axiomatised.clear();
     e.fresh_names.clear();
+    e.pc.clear();
+    e.pc_hard = false;
+    e.hard_cache.clear();
     e.slv->push();
     e.in_path = true;
   }
@@ -654,11 +716,9 @@ namespace sx {
     if (!e.opt.concretise_any) throw ConcretisationRequired{site};
     z3::expr t = term(a);
     // pick a model value
-    set_timeout(e.opt.prove_timeout_ms);
-    z3::check_result r = timed_check();
-    if (r != z3::sat) throw ConcretisationRequired{site};
-    z3::model m = e.slv->get_model();
-    sx_real v   = num_value(m.eval(t, true));
+    z3::check_result r = check_with(e.ctx.bool_val(true), e.opt.prove_timeout_ms, true);
+    if (r != z3::sat || !e.model) throw ConcretisationRequired{site};
+    sx_real v   = num_value(e.model->eval(t, true));
     if (std::isnan(v)) throw ConcretisationRequired{site};
     long k = (long)v;
     z3::expr kk = e.ctx.real_val(std::to_string(k).c_str());
@@ -756,12 +816,21 @@ namespace sx {
   bool current_model(Model * m)
   {
     Eng & e = eng();
-    set_timeout(e.opt.prove_timeout_ms);
-    z3::check_result r = timed_check();
-    if (r != z3::sat) return false;
-    e.model.reset(new z3::model(e.slv->get_model()));
+    z3::check_result r = check_with(e.ctx.bool_val(true), e.opt.prove_timeout_ms, true);
+    if (r != z3::sat || !e.model) return false;
     fill_model(m);
     return true;
+  }
+
+  SymReal uf(const std::string & name, const std::vector<SymReal> & args)
+  {
+    Eng & e = eng();
+    z3::sort R = e.ctx.real_sort();
+    z3::sort_vector dom(e.ctx);
+    z3::expr_vector av(e.ctx);
+    for (const SymReal & a : args) { dom.push_back(R); av.push_back(term(a)); }
+    z3::func_decl f = e.ctx.function(name.c_str(), dom, R);
+    return wrap(f(av));
   }
 
   SymReal fresh(const std::string & name)
